@@ -50,6 +50,18 @@ FIXED = [
     ('/a/<x:int>', 'a/٣'),
     ('/n<x:int>', 'n-007'),
     ('/<x.rex((a)|(b))[2]>z', 'bz'),
+    # the shapes the side conditions of url_rematch_builtin exclude (model witnesses of Props/C19.lean, section
+    # WitnessBuiltin) and instances meeting them
+    ('/<p:path>-5<n:int>', 'a-5-05'),
+    ('/<a:float>.<b:int>', '10000000000000000.0.7'),
+    ('/<a:float>.<b:int>', '1000000000000000.0.7'),
+    ('/dl/<p:path>.tar/img/<n:int>.png', 'dl/a.tar/img/b.tar/img/007.png'),
+    ('/w/<x:float>/<p:path>', 'w/007.50/a/b'),
+    ('/<p:path>/v<x:float>', 'a/b/v1.50'),
+    ('/<x><p:path>', 'ab/c'),
+    ('/<p:path>', 'a/b\n'),
+    ('/<x:float>', '٣.٥0'),
+    ('/<x:float>/e', '12345678901234567.25/e'),
 ]
 
 
@@ -203,7 +215,18 @@ def env_entry(fk, handler, s):
     v, n, sel = core.with_timeout(lambda: handler(s))
     if v is None:
         return '%s:%s=~' % (hs(fk), hs(s))
-    return '%s:%s=%s:%d:%s' % (hs(fk), hs(s), G.enc_val(v), n, '~' if sel is None else sel)
+    e = '%s:%s=%s:%d:%s' % (hs(fk), hs(s), G.enc_val(v), n, '~' if sel is None else sel)
+    if fk.startswith('float(') and n < len(s) and G.float_inexact(s[:n]):
+        # `float(text)` of a numeral the model does not convert itself: shipped under the matched text
+        e += ';%s:%s=%s:%d:~' % (hs(fk), hs(s[:n]), G.enc_val(v), n)
+    return e
+
+
+def model_formats(fk, v):
+    """formatter calls the model computes itself: `int` on an int, `float` on a finite float"""
+    if fk.startswith('int(') and type(v) is int:
+        return True
+    return fk.startswith('float(') and type(v) is float and math.isfinite(v)
 
 
 def url_tables(route, fks, args, kw):
@@ -231,7 +254,7 @@ def url_tables(route, fks, args, kw):
             except Exception as e:
                 prt = None
                 res = 'err.' + type(e).__name__
-            if not (fk.startswith('int(') and type(v) is int):
+            if not model_formats(fk, v):
                 fenv.append('%s:%s=%s' % (hs(fk), G.enc_val(v), res))
             if prt is None:
                 break
@@ -314,6 +337,182 @@ def rt_case(rule, path, whole_only=False):
     info['overflow'] = run.env_overflow
     line = 'routeurl rt %s|%s|%s|%s|%s' % (hs(rule), cerr, hs(path), _txt(env), _txt(fenv))
     return line, impl, info
+
+
+# ---------------------------------------------------------------------------------------------
+# rules of built-in wildcards only, and the decidable hypotheses of url_rematch_builtin re-stated on
+# the real code (`routeurl hyp` lines: the Lean side evaluates `builtinOnly`, `convAfterTok`, `sideOK`)
+
+B_LITS = ['/', '-', '.', '.tar/', '/img/', '-5', '0', '.5', 'v', '/end', 'x/', 'a', '.png', '1', '/a/', '_', '.0', '\n', 'é', '--']
+B_POOL = {
+    None: POOL[None],
+    'int': POOL['int'] + ['-05', '-5', '05', '50', '-50'],
+    'float': POOL['float'] + ['-5', '5.0', '-05.0', '1000000000000000', '1000000000000000.0', '10000000000000000.0', '0.50', '.5',
+                              '12345678901234567.25', '0.1234567890123456', '7', '-7.00', '1.5'],
+    'path': POOL['path'] + ['a-5', 'a-5-5', 'x.tar/y', 'a.tar/img/b', 'a/b\nc', 'a.5', 'a0', '-3.1', 'a\n'],
+}
+
+
+def gen_builtin_ast(rng):
+    n = rng.choice([2, 3, 3, 4, 5, 6])
+    segs = []
+    for i in range(n):
+        if rng.random() < .45:
+            segs.append(('lit', rng.choice(B_LITS)))
+        else:
+            k = rng.choice([None, 'int', 'int', 'float', 'float', 'path', 'path'])
+            name = None if rng.random() < .3 else rng.choice(NAMES)
+            segs.append(('w', name, k, None, None))
+    if not any(x[0] == 'w' for x in segs):
+        segs.append(('w', 'p', 'path', None, None))
+    out = []
+    for x in segs:
+        if x[0] == 'lit' and out and out[-1][0] == 'lit':
+            out[-1] = ('lit', out[-1][1] + x[1])
+        else:
+            out.append(x)
+    if out[0][0] == 'lit':
+        t = out[0][1].lstrip('/')
+        out[0:1] = [('lit', t)] if t else []
+    if out and out[-1][0] == 'lit':
+        t = out[-1][1].rstrip('/')
+        out[-1:] = [('lit', t)] if t else []
+    seen, res = set(), []
+    for x in out:
+        if x[0] == 'w' and x[1] is not None:
+            nm = x[1]
+            while nm in seen:
+                nm += '_'
+            seen.add(nm)
+            x = ('w', nm) + tuple(x[2:])
+        res.append(x)
+    return res or [('w', 'p', 'path', None, None)]
+
+
+def gen_builtin_case(rng):
+    for _ in range(30):
+        ast = gen_builtin_ast(rng)
+        t = G.print_rule(rng, ast)
+        if t is not None and G.in_domain(t):
+            break
+    else:
+        t, ast = '/<p:path>', [('w', 'p', 'path', None, None)]
+    out = []
+    for x in ast:
+        out.append(x[1] if x[0] == 'lit' else rng.choice(B_POOL[x[2]]))
+    p = ''.join(out)
+    if rng.random() < .1:
+        p = G.mutate(rng, p)
+    return t, ast, p
+
+
+def dot_run(s):
+    j = s.find('\n')
+    return len(s) if j < 0 else j
+
+
+def later_lit(conf, rest):
+    """`laterLit` of Model/RouterBuiltinEnv.lean: the look-ahead literal stands again at 1 … dotRun"""
+    for i in range(1, dot_run(rest) + 1):
+        if (rest.startswith(conf, i) if conf else rest[i:] in ('', '\n')):
+            return True
+    return False
+
+
+def dot_digit(rest):
+    return len(rest) >= 2 and rest[0] == '.' and rest[1].isdecimal()
+
+
+def hyp_holds(route, ast, vals):
+    """the hypotheses of url_rematch_builtin on the real objects: wildcard kinds, adjacency, and the
+    side conditions on the matched values and on the URL text that follows each wildcard"""
+    kinds = [x[2] or 'plain' for x in ast if x[0] == 'w']
+    if any(k not in ('plain', 'int', 'float', 'path') for k in kinds):
+        return False
+    runs = lit_runs(ast)
+    idx = [i for i, x in enumerate(ast) if x[0] == 'w']
+    for wi, i in enumerate(idx):
+        nxt_is_w = i + 1 < len(ast) and ast[i + 1][0] == 'w'
+        if kinds[wi] == 'path' and nxt_is_w:
+            return False                                            # builtinOnly
+        if nxt_is_w and kinds[wi + 1] in ('int', 'float'):
+            return False                                            # convAfterTok
+    if len(vals) != len(kinds):
+        return False
+    texts = []
+    for wi, v in enumerate(vals):
+        f_out, f_in = route.filters_out[wi], route.filters[wi]
+        try:
+            prt = f_out(v) if f_out else v
+            ok = isinstance(prt, str)
+            if ok and f_in:
+                val, pos, _ = f_in(prt + runs[wi + 1])
+                ok = val is not None and pos == len(prt)
+        except Exception:
+            ok = False
+        texts.append(prt if ok else None)
+    for wi, v in enumerate(vals):
+        if any(t is None for t in texts[wi + 1:]):
+            continue                                                # no URL for the rest: nothing demanded
+        rest = runs[wi + 1] + ''.join(t + r for t, r in zip(texts[wi + 1:], runs[wi + 2:]))
+        if kinds[wi] == 'float':
+            f_out, f_in = route.filters_out[wi], route.filters[wi]
+            try:
+                if not (type(v) is float and math.isfinite(v)):
+                    return False
+                u = f_out(v)
+                rv, rn, _ = f_in(u)
+                good = same_vals([rv], [v]) and rn == len(u)
+            except Exception:
+                return False
+            if not (good and ('.' in u or not dot_digit(rest))):
+                return False
+        elif kinds[wi] == 'path':
+            if later_lit(runs[wi + 1], rest):
+                return False
+    return True
+
+
+def hyp_case(rule, ast, path):
+    """(line, answer, info): hypotheses of url_rematch_builtin and the outcome of the round trip"""
+    run = Lite()
+    ans = run.add(rule, ['GET'])
+    cerr = run.ops[0].split('|')[-1]
+    if not ans.startswith('ok:'):
+        return 'routeurl hyp %s|%s|%s|~|~' % (hs(rule), cerr, hs(path)), 'add-err', dict(h=False, matched=False)
+    route = run.routes[0]
+    fks = wild_fkeys(rule)
+    p = path.strip('/')
+    env = run.env_for(p)
+    fenv = []
+    r = core.with_timeout(lambda: run.router.resolve(path))
+    info = dict(h=False, matched=False, rematched=False)
+    if r is None:
+        impl = 'miss'
+    else:
+        _, extra = run.router.radidict.get(p, allow_partial=True)
+        names, vals = extra['param_keys'], extra['param_values']
+        info['matched'] = True
+        anon, kw = split_args(names, vals)
+        e2, fenv = url_tables(route, fks, anon, kw)
+        env += e2
+        re_ok = False
+        try:
+            u = core.with_timeout(lambda: route.url(*anon, **kw))
+        except core.Hang:
+            raise
+        except Exception:
+            u = None
+        if u is not None:
+            env += run.env_for(u.strip('/'))
+            if core.with_timeout(lambda: run.router.resolve(u)) is not None:
+                _, ex2 = run.router.radidict.get(u.strip('/'), allow_partial=True)
+                re_ok = same_vals(vals, ex2['param_values'])
+        h = hyp_holds(route, ast, vals)
+        info.update(h=h, rematched=re_ok)
+        impl = 'h=%d r=%d' % (h, re_ok)
+    info['overflow'] = run.env_overflow
+    return 'routeurl hyp %s|%s|%s|%s|%s' % (hs(rule), cerr, hs(path), _txt(env), _txt(fenv)), impl, info
 
 
 BAD_VALUES = ['12', 'abc', '', 'a/b', 7, -3, 0, 1.5, 2.0, '1.5', '٣', ' 4 ', '1_0', 1e+16, float('inf')]
@@ -633,27 +832,45 @@ def sanity_style():
 class C19(Check):
     pid = 'C19'
     props_mod = 'OmbottModel.Props.C19'
-    tables = ['router', 'routeurl']
+    tables = ['router', 'routeurl', 'routerbuiltin']
     design_ref = '6/C19'
     anchors = ['ombott/router/radirouter.py', 'ombott/router/filter_factory.py']
     level_text = ('Lean theorems over the model of Route.url (marker loop with slice bookkeeping, positional anonymous '
                   'arguments, formatters, sanity check): the built URL is the rule\'s literal runs verbatim and in order '
                   'with one formatted value per wildcard; a rule matched by a path is matched again by the URL built '
-                  'from the matched values, with the same values (stated for the rule-by-rule matcher and for the tree of a router holding only that rule) - proved outright for plain and int wildcards '
-                  '(concrete int filter), under a named per-wildcard stability hypothesis for re/path/float; model '
-                  'tied to the code by differential round trips resolve -> url -> resolve.')
-    level_note_extra = ('re/path/float filters are parameters (real handler and formatter answers shipped); their stability '
-                        'is validated by correspondence and search, not proved; rex selectors by correspondence only')
+                  'from the matched values, with the same values (stated for the rule-by-rule matcher and for the tree of a '
+                  'router holding only that rule). Proved with NO hypothesis on filters for rules whose wildcards are plain, '
+                  'int, float or path (url_rematch_builtin, url_rematch_tree_builtin: the handlers of int/float/path and the '
+                  'float formatter are concrete Lean functions, Model/RouterBuiltinEnv.lean), under decidable side conditions: '
+                  'no int/float wildcard directly after another wildcard; after no path wildcard does the literal it looks '
+                  'ahead for stand again before the first newline in the URL built for the rest of the rule (laterLit - the '
+                  'exact condition, stable_path_wildcard; automatic when no int/float wildcard follows the path wildcard); '
+                  'every float value is read back from its formatted text and that text has a decimal point or is not '
+                  'followed by .digit (floatSide - automatic for every numeral of <= 15 significant digits below 1e16, '
+                  'float_value_ok_exact, url_rematch_builtin_exact). The excluded shapes are shown to fail by model witnesses '
+                  '(= the recorded findings). For user regular expressions (re) the per-wildcard stability hypothesis '
+                  'AllStable stays a named assumption (url_rematch). Model tied to the code by differential round trips '
+                  'resolve -> url -> resolve run on the concrete handlers, by >= 1200 direct probes per run of the live '
+                  'int/float/path handlers and of the live float formatter against the concrete Lean functions, by the '
+                  'regenerated probe tables (decide), and by re-stating the side conditions on the real objects.')
+    level_note_extra = ('re filters are parameters (real handler answers shipped); their stability is validated by '
+                        'correspondence and search, not proved; rex selectors by correspondence only; float(text) is computed '
+                        'by the model for numerals of <= 15 significant digits between 1e-291 and 1e300 and is a parameter '
+                        '(shipped) beyond')
     rule = ('rules printed from ASTs in every syntax flavour (literal runs of all lengths, adjacent wildcards, plain/int/'
             'float/path/re/rex filters, anonymous and named wildcards) x paths generated from the rule (texts whose '
             'canonical form differs: 007, -0, 5 -> 5.0, non-ASCII digits; empty matches; greedy path filters) and '
             'mutated; round trip resolve -> Route.url(*anon, **named) -> resolve on a router holding only that rule, '
-            'plus direct url() calls with wrong / missing / ill-typed arguments; non-trivial = the path matched a '
-            'rule with a wildcard')
-    assumptions = ['re matching of the filter masks other than int is taken from the running interpreter (handler results shipped)',
-                   'the float formatter is a parameter (its answers shipped); Stable for re/path/float wildcards is a named hypothesis',
-                   'rule text contains no CR and no repeated wildcard name (as for C01)',
-                   'tree lookup on a single-rule router = rule-by-rule matcher: C01 theorems get_eq_spec/insert_wf/insert_denote (imported by url_rematch_tree, selector-free environments) and checked on every correspondence line']
+            'plus direct url() calls with wrong / missing / ill-typed arguments; rules of built-in wildcards only, dense '
+            'in the side-condition shapes (look-ahead literal re-created by a canonical int/float text, values from 1e16, '
+            '16/17-digit numerals, newlines), with the hypotheses of url_rematch_builtin evaluated on both sides; random '
+            'texts / doubles through the live handlers and the live float formatter; non-trivial = the path matched a '
+            'rule with a wildcard, or a filter / formatter probe')
+    assumptions = ['re matching of user regular expressions (re / rex filters) is taken from the running interpreter (handler results shipped); Stable for re wildcards is a named hypothesis (AllStable of url_rematch)',
+                   'the concrete int / float / path handlers and the concrete float formatter of Model/RouterBuiltinEnv.lean are the live ones: tied by the regenerated probe tables (C01: builtin_env_probes_agree; C19: builtin_float_fmt_agrees), by direct differential probes on random texts and doubles and by the round trips; within the model their stability is proved',
+                   'float(text) equals the numeral itself (repr shows its digits) for numerals of at most 15 significant digits between 1e-291 and 1e300: the 15-digit round-trip guarantee of IEEE-754 binary64 plus shortest repr, not proved in Lean (validated differentially); beyond that domain the converter is a parameter whose value must meet the decidable side condition floatSide',
+                   'rule text contains no CR and no repeated wildcard name (as for C01); a path wildcard looks ahead for the literal run that follows it (what the parser configures) and is not directly followed by another wildcard',
+                   'tree lookup on a single-rule router = rule-by-rule matcher: C01 theorems get_eq_spec/insert_wf/insert_denote (imported by url_rematch_tree, selector-free environments; the concrete environment is selector-free by proof) and checked on every correspondence line']
 
     def __init__(self):
         self.stats = {}
@@ -663,7 +880,7 @@ class C19(Check):
         return n * (3 if escalated and tier == 'quick' else 1)
 
     def nontrivial(self, sample):
-        return bool(sample.get('matched')) or sample.get('kind') == 'url'
+        return bool(sample.get('matched')) or sample.get('kind') in ('url', 'bfilter', 'bfmt')
 
     def _bump(self, k, n=1):
         self.stats[k] = self.stats.get(k, 0) + n
@@ -693,6 +910,7 @@ class C19(Check):
             if impl.startswith('add-err'):
                 self._bump('rt-' + impl)
             out.append((line, impl, dict(kind='rt', rule=rule, path=path, matched=info['matched'], answer=impl[:60])))
+        out += self.corr_builtin(rng, n)
         for _ in range(n // 3):
             rule, path = gen_case(rng) if rng.random() < .9 else (rng.choice(G.MALFORMED), 'a')
             try:
@@ -704,6 +922,80 @@ class C19(Check):
             self._bump('url')
             self._bump('url-' + c[1].split(':')[0] + (':' + c[1].split(':')[1] if c[1].startswith('err') else ''))
             out.append(c)
+        return out
+
+    # ------------------------------------------------------------------
+    FILTER_ALPHA = list('0123456789--..e/+xa\n') + ['.tar/', 'é', '٣', '۵', '00', '.0', '-5']
+
+    def corr_builtin(self, rng, n):
+        """(a) `routeurl hyp`: rules of built-in wildcards; the hypotheses of url_rematch_builtin evaluated by
+        the model and re-stated here on the real objects, and the round trip's outcome; (b) `router bfilter` /
+        `router bfmt`: the live int / float / path handlers and the live float formatter against the concrete
+        Lean filters on random texts and values"""
+        from ombott.router.filter_factory import FilterFactory
+        out = []
+        cases = []
+        for rule, path in FIXED:
+            try:
+                cases.append((rule, ast_of_rule(rule), path))
+            except Exception:
+                pass
+        for _ in range(n // 4):
+            cases.append(gen_builtin_case(rng))
+        for rule, ast, path in cases:
+            if any(x[0] == 'w' and x[2] in ('re', 'rex') for x in ast):
+                continue
+            try:
+                line, impl, info = hyp_case(rule, ast, path)
+            except core.Hang:
+                self._bump('hang-skipped')
+                continue
+            if info.get('overflow') or len(line) > 60000:
+                self._bump('env-overflow-skipped')
+                continue
+            self._bump('hyp')
+            if info['matched']:
+                self._bump('hyp-matched')
+                self._bump('hyp-h=%d-r=%d' % (info['h'], info['rematched']))
+            out.append((line, impl, dict(kind='rt', rule=rule, path=path, matched=info['matched'], answer=impl)))
+        f_out = FilterFactory.make_filter('float', None)[1]
+        for _ in range(max(1200, n // 4)):
+            name = rng.choice(['int', 'float', 'float', 'float', 'path', 'path'])
+            conf = rng.choice(['/', '.', '-5', '.tar/', '', '0', '\n', 'é', '/end', '.0']) if name == 'path' else None
+            text = ''.join(rng.choice(self.FILTER_ALPHA) for _ in range(rng.randint(0, 8)))
+            if name != 'path' and rng.random() < .85:
+                k = rng.random()
+                if k < .4:
+                    num = str(rng.randrange(1000)) + rng.choice(['', '.', '.5', '.50', '.0', '.000'])
+                elif k < .65:
+                    num = '0.' + '0' * rng.randint(0, 25) + str(rng.randrange(1, 10 ** rng.randint(1, 17)))
+                elif k < .9:
+                    num = str(rng.randrange(1, 10 ** rng.randint(1, 18))) + '0' * rng.choice([0, 0, 3, 8, 20]) + \
+                        rng.choice(['', '.0', '.5', '.' + str(rng.randrange(10 ** 6))])
+                else:
+                    num = rng.choice(['1' + '0' * 309, '0.' + '0' * 330 + '1', '9' * 15 + '0' * 290, '0.' + '0' * 288 + '12',
+                                      '٣.٥', '۱۲', '1٣.٥0', '0.' + '0' * 291 + '1'])
+                text = rng.choice(['', '-', '', '00']) + num + text
+            if name == 'path' and conf and rng.random() < .6:
+                text = text + conf + (text[:2] + conf if rng.random() < .4 else '')
+            fid = '%s(%s)' % (name, conf)
+            h = FilterFactory.make_filter(name, conf)[0]
+            v, k, sel = h(text)
+            ans = '~' if v is None else '%s:%d' % (G.enc_val(v), k)
+            fc = G.enc_val(v) if (name == 'float' and v is not None) else '~'
+            self._bump('filter-' + name + ('-hit' if v is not None else '-miss'))
+            if name == 'float' and v is not None:
+                self._bump('filter-float-' + ('shipped-conv' if G.float_inexact(text[:k]) else 'exact'))
+            out.append(('router bfilter %s %s %s' % (hs(fid), hs(text), fc), ans, dict(kind='bfilter', fid=fid, text=text)))
+            if name == 'float' and v is not None and math.isfinite(v):
+                self._bump('float-fmt')
+                out.append(('router bfmt ' + G.enc_val(v), 'ok.' + hs(f_out(v)), dict(kind='bfmt', value=repr(v))))
+        for _ in range(300):
+            # formatter on doubles that did not come from a mask text: every magnitude, 17 digits
+            x = rng.choice([rng.random(), rng.uniform(-1e6, 1e6), rng.random() * 10 ** rng.randint(-320, 308),
+                            float(rng.randrange(10 ** 18)), 2.0 ** rng.randint(-1074, 1023), -rng.random() * 1e-5])
+            self._bump('float-fmt')
+            out.append(('router bfmt ' + G.enc_val(x), 'ok.' + hs(f_out(x)), dict(kind='bfmt', value=repr(x))))
         return out
 
     # ------------------------------------------------------------------
